@@ -136,6 +136,25 @@ STRENGTHENED = {
                'skipped when their encoding has non-zero bytes',
     'C20_m11': 'one file reached through a same-named symbolic link in every input directory, including its sibling',
     'C20_m12': 'a run started from a directory that holds a same-named, different file of what -I must supply',
+    # round 7
+    'C02_m13': "the message's OWN encoding is decoded too (built through the API, alternately dense and with defaults never touched)",
+    'C04_m14': 'default-constructed objects of non-fixed types are encoded by the full codec and measured against the reference length',
+    'C05_m13': 'a third of the schema files are cut into an included and an including file, both inputs of one prophyc run',
+    'C05_m14': 'every scalar type in every member form (absent/present optional between other members, arrays): three more schema files per C++ worker set',
+    'C06_m14': 'inputs with exactly 65535 / 65536 / 65537 real elements (u8, u16+bytes sharing a sizer, struct elements with an i64 sizer, bytes, limited u64) through decode + encode fixpoint',
+    'C08_m13': 'isar rendering of the same schema whose fixed/limited array sizes are written as expressions (product divided with truncation, shift chain)',
+    'C10_m13': 'packed-mode twin of every generated module (re-based on struct_packed) and assignment to array counters / unknown names as an operation',
+    'C11_m14': 'the first write to an array after the copy is a whole-array operation (sort, slice assignment, deletion, insert, extend, remove)',
+    'C13_m13': 'include cycles of 1..4 files in different directories spelled with redundant path components; a family that overruns the step budget twice stops burning the worker',
+    'C13_m14': 'every combination of two or more output options in both orders, with the requested files looked for after success',
+    'C14_m14': 'isar two-dimensional arrays (size x size2), static and limited, dimensions named by constants/enumerators',
+    'C15_m13': "length fields of typedef'd integer type, aliases of dynamic structs, and an all-permutations motif set (struct needing a typedef only through its length field, pulled forward by its alias)",
+    'C15_m14': 'member-level layout (size, alignment, padding of every struct member) compared between permutations and with the prophy front-end',
+    'C16_m14': 'the run is started from a directory holding same-named, different files (includes found through -I only; a missing include stays missing)',
+    'C17_m13': 'isar\'s optional arrays (optional="true" on a member with a dimension, every dimension form)',
+    'C17_m14': 'members behind the greedy field in the XML, removed by rules placed before or after the greedy rule',
+    'C18_m14': 'bytes values draw from every byte value except 0x27; floor of 150 distinct escape sequences rendered',
+    'C20_m14': 'four -I directories, three of them holding same-named different files, each input alone under five hash seeds',
 }
 
 
